@@ -5,7 +5,8 @@
 (* TimeArith.tla, instantiated with BigNat.tla limb arithmetic and the     *)
 (* real constants NPS = 10^9, SMAX = 2^63-1, DMAX = 2^64-1.                *)
 (* One ndjson line per call:                                               *)
-(*   op  "add" | "sub" (b = Duration) | "diff" | "since_unix" | "cmp"      *)
+(*   op  "add" | "sub" (b = Duration) | "diff" | "since_unix" | "cmp" |    *)
+(*       "elapsed" (b, c = clock readings before / after the call)         *)
 (*   a, b  [neg, s (limbs of |seconds|), ns]                               *)
 (*   out   [k |-> "some", s (limbs), ns] | "none" | "panic" | "cmp" le lt eq c*)
 (* Verdict per line:                                                       *)
@@ -49,6 +50,16 @@ Judge(r) ==
            [] r.op = "sub"  -> r.out.k \in {"some", "none"} /\ Obs(r.out) = B!SubDur(Val(r.a), Val(r.b))
            [] r.op = "diff" -> r.out.k \in {"some", "none"} /\ Obs(r.out) = B!Diff(Val(r.a), Val(r.b))
            [] r.op = "since_unix" -> r.out.k = "some" /\ Obs(r.out) = B!Diff(Val(r.a), Val(r.b))
+           \* Instant::elapsed = now - a, with the unknown `now` between the readings b (before) and c (after)
+           [] r.op = "elapsed" ->
+                 LET lo == B!Diff(Val(r.b), Val(r.a))
+                     hi == B!Diff(Val(r.c), Val(r.a))
+                     ob == Obs(r.out)
+                 IN  /\ r.out.k \in {"some", "none"}
+                     /\ InDomain(r.c)
+                     /\ lo.some => /\ ob.some /\ hi.some
+                                    /\ B!Before(B!AsVal(lo), B!AsVal(ob)) /\ B!Before(B!AsVal(ob), B!AsVal(hi))
+                     /\ ~hi.some => ~ob.some
            [] r.op = "cmp"  -> /\ r.out.k = "cmp"
                                /\ r.out.le = B!Before(Val(r.a), Val(r.b))
                                /\ r.out.lt = ~B!Before(Val(r.b), Val(r.a))
